@@ -1,4 +1,7 @@
 //! Independent reference implementations, written from the standards' text.
+pub mod ec;
+pub mod field;
+pub mod sm2;
 pub mod sm3;
 pub mod sm4;
 pub mod zuc;
@@ -11,6 +14,8 @@ pub fn self_test_all() -> Result<usize, String> {
     n += 4;
     zuc::self_test()?;
     n += 9;
+    sm2::self_test()?;
+    n += 9;
     Ok(n)
 }
 
@@ -19,6 +24,9 @@ pub fn self_test_for(prop: &str) -> Result<(), String> {
     sm3::self_test()?;
     if matches!(prop, "C02" | "C07" | "C20") {
         sm4::self_test()?;
+    }
+    if matches!(prop, "C03" | "C04" | "C05" | "C06" | "C11" | "C14" | "C15" | "C19" | "C20") {
+        sm2::self_test()?;
     }
     if matches!(prop, "C08" | "C18" | "C20") {
         zuc::self_test()?;
